@@ -79,8 +79,89 @@ def _h8(key):
 _CHECK = None
 
 
-def _run_items(check, items, tier, want_digests=False, hang_s=None):
-	"""Run work items serially in this process; return an Agg."""
+def seed_globals(case):
+	"""Process-global generators are nondeterminism sources too: pin them to the
+	case so that code which (wrongly) reads them still replays exactly."""
+	s = core.derive_seed(case.get("seed", 0) if isinstance(case, dict) else 0,
+		"globals") % (2 ** 31 - 1)
+	import random as _random
+	import numpy as _numpy
+	_random.seed(s)
+	_numpy.random.seed(s)
+	try:
+		import torch as _torch
+		_torch.manual_seed(s)
+	except ImportError:
+		pass
+
+
+def after_fork():
+	"""First thing in every forked child, while it is still single-threaded:
+	make torch re-create its intra-op thread pool now.  Otherwise the pool is
+	re-created lazily by whichever thread touches it first, and a second thread
+	(autograd worker, a simulated caller thread) racing with that sees a null
+	pool ("Invalid thread pool!") -- a flaky, load-dependent harness failure."""
+	if "torch" in sys.modules:
+		import torch
+		try:
+			torch.set_num_threads(1)
+		except Exception:
+			pass
+
+
+def run_one(check, case):
+	"""Execute one case: in a freshly forked child when the check asks for
+	isolation (state leaked by the code under test must not reach the next
+	case / the minimiser / the parent), else in this process."""
+	if not getattr(check, "isolate_cases", False):
+		seed_globals(case)
+		return check.run_case(case)
+	r, w = os.pipe()
+	# the faulthandler watchdog is a thread: it must not be armed across a fork
+	# (the child would wait forever for a thread it does not have)
+	faulthandler.cancel_dump_traceback_later()
+	pid = os.fork()
+	if pid == 0:
+		code = 0
+		try:
+			os.close(r)
+			after_fork()
+			faulthandler.dump_traceback_later(check.hang_s, exit=True)
+			try:
+				seed_globals(case)
+				out = check.run_case(case)
+				payload = pickle.dumps(("ok", out))
+			except BaseException:
+				payload = pickle.dumps(("err", traceback.format_exc()[-4000:]))
+			with os.fdopen(w, "wb") as f:
+				f.write(payload)
+		except BaseException:
+			code = 1
+		finally:
+			os._exit(code)
+	os.close(w)
+	faulthandler.dump_traceback_later(check.hang_s + 60, exit=True)
+	try:
+		with os.fdopen(r, "rb") as f:
+			data = f.read()
+		_, status = os.waitpid(pid, 0)
+	finally:
+		faulthandler.cancel_dump_traceback_later()
+	if not data:
+		raise ChildDied("isolated child died (status %d)" % status)
+	kind, val = pickle.loads(data)
+	if kind == "err":
+		raise RuntimeError("exception in isolated child:\n" + val)
+	return val
+
+
+class ChildDied(RuntimeError):
+	pass
+
+
+def _run_items(check, items, tier, want_digests=False, hang_s=None, direct=False):
+	"""Run work items serially in this process; return an Agg.  ``direct``: this
+	process already is the isolated child, do not fork again."""
 	agg = Agg()
 	hang_s = hang_s or check.hang_s
 	for leg, seed in items:
@@ -89,7 +170,11 @@ def _run_items(check, items, tier, want_digests=False, hang_s=None):
 		try:
 			faulthandler.dump_traceback_later(hang_s, exit=True)
 			case = check.gen_case(leg, seed, tier)
-			out = check.run_case(case)
+			if direct:
+				seed_globals(case)
+				out = check.run_case(case)
+			else:
+				out = run_one(check, case)
 		except Exception:
 			agg.errors.append({"leg": leg, "seed": seed,
 				"traceback": traceback.format_exc()[-4000:]})
@@ -119,6 +204,64 @@ def _run_items(check, items, tier, want_digests=False, hang_s=None):
 		if out.sample is not None and len(agg.samples) < 3:
 			agg.samples.append(out.sample)
 	return agg
+
+
+def _fork_map(check, items, tier, want_digests, jobs, wall_cap, t_start, agg, info):
+	"""One freshly forked child of THIS process per work item (used when the check
+	asks for case isolation).  Children are direct forks of the prepared parent,
+	which never executes a case itself."""
+	scratch = repo.scratch_dir()
+	pending = list(items)
+	running = {}
+	faulthandler.cancel_dump_traceback_later()
+	while pending or running:
+		while pending and len(running) < jobs:
+			if time.time() - t_start > wall_cap:
+				info["truncated"] = True
+				pending = []
+				break
+			item = pending.pop(0)
+			pid = os.fork()
+			if pid == 0:
+				code = 0
+				try:
+					after_fork()
+					a = _run_items(check, [item], tier, want_digests, direct=True)
+					path = os.path.join(scratch, "iso.%d.pkl" % os.getpid())
+					with open(path + ".tmp", "wb") as f:
+						pickle.dump(a, f)
+					os.replace(path + ".tmp", path)
+				except BaseException:
+					code = 1
+				finally:
+					os._exit(code)
+			running[pid] = (item, time.time())
+		if not running:
+			break
+		pid, status = os.waitpid(-1, 0)
+		if pid not in running:
+			continue
+		item, t0 = running.pop(pid)
+		path = os.path.join(scratch, "iso.%d.pkl" % pid)
+		a = None
+		if os.path.exists(path):
+			try:
+				with open(path, "rb") as f:
+					a = pickle.load(f)
+			except Exception:
+				a = None
+			os.remove(path)
+		if a is not None and status == 0:
+			agg.merge(a)
+		elif os.WIFSIGNALED(status):
+			info["crashes"].append({"leg": item[0], "seed": item[1],
+				"returncode": -os.WTERMSIG(status), "tail": "isolated child killed by "
+				"signal %d" % os.WTERMSIG(status)})
+		else:
+			info["timeouts"] += 1
+			agg.errors.append({"leg": item[0], "seed": item[1], "traceback":
+				"isolated child exited with status %d after %.0fs (hang watchdog or "
+				"harness failure)" % (status, time.time() - t0)})
 
 
 def _pool_worker(items, tier, want_digests):
@@ -199,13 +342,17 @@ def explore(check, tier, base_seed, jobs, want_digests=False, items=None,
 
 	_CHECK = check
 	unfinished = []
-	if fork_items:
+	if fork_items and getattr(check, "isolate_cases", False):
+		_fork_map(check, fork_items, tier, want_digests, max(1, jobs), wall_cap,
+			t_start, agg, info)
+	elif fork_items:
 		n_workers = max(1, min(jobs, len(fork_items)))
 		csize = max(1, min(params.get("chunk", 50),
 			(len(fork_items) + n_workers * 4 - 1) // (n_workers * 4)))
 		chunks = _chunks(fork_items, csize)
 		ctx = multiprocessing.get_context("fork")
-		ex = ProcessPoolExecutor(max_workers=n_workers, mp_context=ctx)
+		ex = ProcessPoolExecutor(max_workers=n_workers, mp_context=ctx,
+			initializer=after_fork)
 		futs = [(ch, ex.submit(_pool_worker, ch, tier, want_digests)) for ch in chunks]
 		broken = False
 		for ch, fut in futs:
@@ -289,7 +436,7 @@ def replay_file(check, path):
 	with open(path) as f:
 		rec = json.load(f)
 	check.prepare(rec.get("tier", "quick"), fresh=True)
-	out = check.run_case(rec["case"])
+	out = run_one(check, rec["case"])
 	classes = sorted(set(v.klass for v in out.violations))
 	print("REPLAY property=%s digest=%s classes=%s" % (check.prop_id, out.digest,
 		",".join(classes) or "-"))
@@ -379,10 +526,10 @@ def main(check, argv):
 			print("minimiser failed (reporting unminimised case): %s" %
 				traceback.format_exc()[-1500:])
 			small = case
-		out = check.run_case(small)
+		out = run_one(check, small)
 		vs = [x for x in out.violations if x.klass == v["class"]]
 		if not vs:
-			small, out = case, check.run_case(case)
+			small, out = case, run_one(check, case)
 			vs = [x for x in out.violations if x.klass == v["class"]]
 		if not vs:
 			unreproduced.append({"leg": rec["leg"], "seed": rec["seed"],
@@ -392,7 +539,7 @@ def main(check, argv):
 		# after minimisation the case may have turned into a known finding
 		if any(check.matches_known(vs[0].to_json(), small, k) for k in open_known) \
 				and not any(check.matches_known(v, case, k) for k in open_known):
-			small, out = case, check.run_case(case)
+			small, out = case, run_one(check, case)
 			vs = [x for x in out.violations if x.klass == v["class"]]
 		path = os.path.join(OUT, "replays", "%s-%s-%d-%s.json" % (check.prop_id,
 			rec["leg"], rec["seed"], v["class"]))
@@ -511,6 +658,7 @@ class Check(object):
 	real_vs_stub = {}
 	hang_s = 300
 	tiers = {}
+	isolate_cases = False     # True: every case runs in a freshly forked child
 
 	def prepare(self, tier, fresh=False):
 		repo.setup()
@@ -544,7 +692,7 @@ class Check(object):
 
 	def still_fails(self, case, klass, key=None):
 		try:
-			out = self.run_case(case)
+			out = run_one(self, case)
 		except Exception:
 			return False
 		for v in out.violations:
